@@ -71,7 +71,28 @@ func sharedPointerValues() []gen.GV {
 	b := &N{V: 2}
 	c := &N{V: 3, Next: b, Kids: []*N{b, b}}
 	s := "shared"
+	// two distinct shared references at one address but of different types
+	type In struct {
+		A int
+		B string
+	}
+	type Out struct {
+		In In
+		Z  int
+	}
+	in := &In{A: 7, B: "x"}
+	sl := []string{"a", "b"}
+	arr := &[2]int16{5, 6}
+	out := &Out{In: In{A: 1, B: "y"}, Z: 2}
+	il := []interface{}{1, "two"}
 	return []gen.GV{
+		{Name: "shared:struct+first-field", Class: "shared-pointers", V: []interface{}{in, in, &in.A, &in.A}},
+		{Name: "shared:first-field+struct", Class: "shared-pointers", V: []interface{}{&in.A, in, &in.A, in}},
+		{Name: "shared:slice+first-element", Class: "shared-pointers", V: []interface{}{sl, sl, &sl[0], &sl[0]}},
+		{Name: "shared:array+first-element", Class: "shared-pointers", V: []interface{}{arr, arr, &arr[0], &arr[0]}},
+		{Name: "shared:outer+inner+field", Class: "shared-pointers", V: []interface{}{out, &out.In, &out.In.A, out, &out.In, &out.In.A}},
+		{Name: "shared:iface-slice+first-element", Class: "shared-pointers", V: []interface{}{il, &il[0], il, &il[0]}},
+		{Name: "shared:second-field", Class: "shared-pointers", V: []interface{}{in, &in.B, &in.B, in}},
 		{Name: "shared:self-cycle", Class: "shared-pointers", V: a},
 		{Name: "shared:diamond", Class: "shared-pointers", V: c},
 		{Name: "shared:strings", Class: "shared-pointers", V: []*string{&s, &s, &s}},
